@@ -289,7 +289,9 @@ func (ps *peerScore) score(p peer.ID) float64 {
 		var topicScore float64
 
 		// P1: time in Mesh
-		if tstats.inMesh {
+		// (with SkipAtomicValidation the whole P1 group may be left at zero, quantum
+		// included; a zero weight disables the term)
+		if tstats.inMesh && topicParams.TimeInMeshWeight != 0 {
 			p1 := float64(tstats.meshTime / topicParams.TimeInMeshQuantum)
 			if p1 > topicParams.TimeInMeshCap {
 				p1 = topicParams.TimeInMeshCap
